@@ -150,3 +150,31 @@ class Canary(object):
 
     def __setstate__(self, state):
         Canary.log.append(("setstate", state))
+
+
+@server.expose
+class RegT(object):
+    """instances o1/o2 of the registry check"""
+    def __init__(self, label):
+        self.label = label
+        self.calls = 0
+
+    def who(self):
+        self.calls += 1
+        return self.label
+
+
+@server.expose
+@server.behavior(instance_mode="single")
+class RegK(object):
+    def who(self):
+        return "K"
+
+
+@server.expose
+class RegHost(object):
+    """returns pool objects from a remote method (auto-proxy leg)"""
+    pool = {}
+
+    def give(self, label):
+        return RegHost.pool[label]
